@@ -214,6 +214,21 @@ Usage: ggqlgen [options] [<schema-file>...]
 				}
 				exists[t.Name()] = true
 			}
+			// Directive definitions belong to the file as well. They are
+			// kept under "@name" so they can not clash with a type name.
+			for _, t := range root.Directives() {
+				key := "@" + t.Name()
+				if t.Core() || exists[key] {
+					continue
+				}
+				if e != nil {
+					e.types[key] = true
+				}
+				if o != nil {
+					o.types[key] = true
+				}
+				exists[key] = true
+			}
 		}
 	}
 	for _, e := range embeds.embeds {
@@ -228,6 +243,12 @@ Usage: ggqlgen [options] [<schema-file>...]
 				continue
 			}
 			if e.types[t.Name()] {
+				buf = append(buf, '\n')
+				buf = append(buf, t.SDL(true)...)
+			}
+		}
+		for _, t := range root.Directives() {
+			if e.types["@"+t.Name()] {
 				buf = append(buf, '\n')
 				buf = append(buf, t.SDL(true)...)
 			}
@@ -253,6 +274,12 @@ Usage: ggqlgen [options] [<schema-file>...]
 				continue
 			}
 			if o.types[t.Name()] {
+				buf = append(buf, '\n')
+				buf = append(buf, t.SDL(true)...)
+			}
+		}
+		for _, t := range root.Directives() {
+			if o.types["@"+t.Name()] {
 				buf = append(buf, '\n')
 				buf = append(buf, t.SDL(true)...)
 			}
